@@ -7,10 +7,15 @@ use crate::ev::esc;
 use crate::out::{PropResult, Violation, J};
 use crate::par::HangReport;
 
+pub mod c01;
+pub mod c02;
 pub mod c05;
 pub mod c06;
 pub mod c07;
 pub mod c08;
+pub mod c09;
+pub mod c10;
+pub mod c11;
 pub mod c12;
 
 pub struct Ctx {
